@@ -4,6 +4,7 @@ import (
 	"bytes"
 	"context"
 	"fmt"
+	"reflect"
 	"regexp"
 	"strconv"
 	"time"
@@ -157,7 +158,9 @@ type runResult struct {
 	ByFunc       map[[2]int][3]int // getinfo(func, "Sl"): linedefined, lastlinedefined, currentline
 	SetRet       map[int]*string   // QS/QU: returned name
 	ThreadSetBad []int             // QT: setlocal(co, 1, 1, v) did not change exactly that variable
-	Incons       [][2]int          // (point, level): getinfo answers differ with the selection of items asked for
+	RegSize      int               // debugging aid (show): size of the data stack before the run, and its growth
+	RegGrown     int
+	Incons       [][2]int // (point, level): getinfo answers differ with the selection of items asked for
 	SetSeen      map[int]bool
 }
 
@@ -262,6 +265,15 @@ func runSource(src []byte, variant int) (res *runResult) {
 		res.LoadErr = err.Error()
 		return
 	}
+	if variant == 1 {
+		// the host already holds values on the data stack: the program's frames start just below the
+		// initial size and every deeper call makes the stack grow by another step
+		for i := 0; i < 96+len(src)%32; i++ {
+			L.Push(lua.LNil)
+		}
+	}
+	res.RegSize = regSize(L)
+	defer func() { res.RegGrown = regSize(L) - res.RegSize }()
 	L.Push(fn)
 	if err := L.PCall(0, lua.MultRet, nil); err != nil {
 		if ae, ok := err.(*lua.ApiError); ok && ae.Object != nil {
@@ -308,4 +320,11 @@ func lexLines(src []byte) (lines []int, err error) {
 		lx.PrevTokenType = tok.Type
 		lines = append(lines, tok.Pos.Line)
 	}
+}
+
+// regSize reads the current size of the state's data stack (debugging aid only: shows that the
+// growing variant really grows; never part of an observation).
+func regSize(L *lua.LState) (n int) {
+	defer func() { recover() }()
+	return reflect.ValueOf(L).Elem().FieldByName("reg").Elem().FieldByName("array").Len()
 }
